@@ -92,24 +92,40 @@ def outcomes(logic, func, frame=None, boolean=True, depth=2):
     return [o for o in res if not contradictory(o.lits)]
 
 
+def _mentions_loc(expr, written):
+    """does expr read one of the locations (unparsed text) in `written`?"""
+    for x in ast.walk(expr):
+        if isinstance(x, (ast.Name, ast.Attribute, ast.Subscript)) and ast.unparse(x) in written:
+            return True
+    return False
+
+
 def _track_consts(node, cenv):
-    """path-sensitive constant propagation for boolean flag locals"""
+    """path-sensitive propagation for boolean flag locals: constants, and boolean expressions
+    (comparisons, and/or/not, one predicate call) whose operands are not written before the
+    flag is read"""
     if isinstance(node, ast.Assign):
+        written = set()
         for t in node.targets:
             for x in ast.walk(t):
                 if isinstance(x, ast.Name):
                     cenv.pop(x.id, None)
+            for x in (t.elts if isinstance(t, (ast.Tuple, ast.List)) else [t]):
+                written.add(ast.unparse(x))
         if len(node.targets) == 1 and isinstance(node.targets[0], ast.Name):
             v = node.value
+            nm = node.targets[0].id
             if isinstance(v, ast.Constant) and isinstance(v.value, bool):
-                cenv[node.targets[0].id] = v
-            elif isinstance(v, (ast.BoolOp, ast.UnaryOp, ast.Compare)) and any(
-                    isinstance(x, ast.Name) and x.id in cenv for x in ast.walk(v)):
-                # a flag combined from flags whose value on this path is known
-                cenv[node.targets[0].id] = _subst(v, cenv)
+                cenv[nm] = v
+            elif isinstance(v, (ast.BoolOp, ast.Compare)) or (
+                    isinstance(v, ast.UnaryOp) and isinstance(v.op, ast.Not)):
+                if not any(isinstance(x, ast.Name) and x.id == nm for x in ast.walk(v)):
+                    cenv[nm] = _subst(v, cenv)
     elif isinstance(node, (ast.AugAssign, ast.AnnAssign)):
         if isinstance(node.target, ast.Name):
             cenv.pop(node.target.id, None)
+        # (a flag keeps the value it was given: literals are facts about the moment they were
+        # evaluated, like every other literal of an outcome path)
 
 
 class _Sub(ast.NodeTransformer):
